@@ -491,11 +491,20 @@ var _ uuid.UUID
 //@ set sent = sent + 1
 //@ set sentNil = sentNil + ite(isnil($val), 1, 0)
 //@ end
+// what is added is what a node answered for exactly the captured partition (a lookup that did not happen, or failed, adds nothing)
+//@ ghost answered int = 0
+//@ ghost ans *pb.PartitionInfoResponse = nil
+//@ at call DataManagerClient.PartitionInfo
+//@ requires [C17 asks-for-its-partition] $arg2 != nil && uuidOfBytes($arg2.PartitionId) == (*partition).id && uuidOfBytes($arg2.DatasetId) == (*this).id
+//@ set answered = ite(isnil($ret1), 1, 0)
+//@ set ans = $ret0
+//@ end
 //@ at call sync/atomic.AddUint64
+//@ requires [C17 counts-the-owners-answer] answered == 1 && ans != nil && (($arg0 == len && $arg1 == ans.Len) || ($arg0 == bytesSize && $arg1 == ans.BytesSize))
 //@ set added = added + 1
 //@ end
 //@ noclose errorCh
-//@ requires [captured] this != nil && *this != nil && partition != nil && *partition != nil && len != nil && bytesSize != nil
+//@ requires [captured] this != nil && *this != nil && partition != nil && *partition != nil && len != nil && bytesSize != nil && len != bytesSize
 //@ ensures [one-outcome] (sent == 1 && sentNil == 0 && added == 0) || (sent == 0 && added == 2)
 
 // SizeInfo: every partition is handled exactly once (counted locally, or handed to exactly one worker that captured it
